@@ -75,7 +75,10 @@ def _limits():
 def run(cmd, timeout=None, cwd=None, stdin=None, limit=True):
     """Run a command; returns (rc, stdout, stderr, wall_s, timed_out)."""
     t0 = time.time()
-    p = subprocess.Popen(cmd, stdout=subprocess.PIPE, stderr=subprocess.PIPE,
+    env = dict(os.environ)
+    env["ASAN_OPTIONS"] = "detect_leaks=0:abort_on_error=0"
+    env["UBSAN_OPTIONS"] = "print_stacktrace=0"
+    p = subprocess.Popen(cmd, stdout=subprocess.PIPE, stderr=subprocess.PIPE, env=env,
                          stdin=subprocess.PIPE if stdin is not None else subprocess.DEVNULL,
                          cwd=cwd, preexec_fn=_limits if limit else os.setsid)
     try:
